@@ -359,6 +359,13 @@ def run(repo, rep):
     rep.run_borrowed(c07, {"C07-i": "C08-k"}, repo, only_sites=("npu_encode_weights", "encode_weights"))
     rule_round5(repo, rep)
     rule_forced_output_quantisation(repo, rep)
+    rep.clause("C08-o", "a synthesised zero bias has one element per output channel: fixup_bias_tensors runs after the rewrites that bring the weight tensor into its final axis order")
+    rule_bias_after_reorder(repo, rep)
+    rep.clause("C08-p", "Operation.clone copies every member that decides the encoding (rounding mode, explicit scaling ...): slots vs copied members, reviewed exemptions")
+    from .shared import clone_completeness
+
+    if clone_completeness(repo, rep, "C08-p") < 20:
+        raise AnalysisError("Operation.clone: fewer than 20 members checked")
 
     # ---------------------------------------------------------------- h: key components are computed from the quantities they name
     rep.clause("C08-h", "the block-depth component of the cache key is min(requested OFM block depth, OFM depth of the weights), with the OFM depth read from the same axis as the encoder's full_ofm_depth")
@@ -545,3 +552,34 @@ def rule_forced_output_quantisation(repo, rep):
     if n < 1:
         raise AnalysisError("weight_compressor: no read of an operator's output quantisation found")
     rep.floor("C08-n", 2)
+
+
+def rule_bias_after_reorder(repo, rep):
+    """(o) fixup_bias_tensors gives a bias-less operator a zero bias with one element per output channel, read off the weight tensor as
+    `shape[-1]`. The output-channel axis of depthwise weights is last only after reorder_depthwise_weights has transposed them from the
+    reader's (H, W, C, 1): in the rewrite list the reorder (and the transpose-convolution fix-up, which swaps the weight axes) must
+    come before fixup_bias_tensors, otherwise a depthwise convolution gets a one-element bias and every scale range but the first is
+    empty."""
+    from .c02 import _pipeline
+
+    go = repo.mod("tflite_graph_optimiser")
+    site = "ethosu/vela/tflite_graph_optimiser.py:tflite_optimise_graph"
+    fb = go.func("fixup_bias_tensors")
+    reads_last = any("shape[-1]" in str(norm(x)) for x in ast.walk(fb) if isinstance(x, ast.Subscript))
+    tf, passes = _pipeline(go)
+    found = False
+    for ln, names in passes:
+        if "fixup_bias_tensors" in names:
+            found = True
+            if not reads_last:
+                rep.ok("C08-o", site, "fixup_bias_tensors does not size the bias from the last weight axis", "order not constrained")
+                continue
+            for pre in ("reorder_depthwise_weights", "fixup_conv2d_backprop"):
+                if pre in names:
+                    rep.check(names.index(pre) < names.index("fixup_bias_tensors"), "C08-o", site, f"{pre} runs before fixup_bias_tensors (which reads the output channels as weights.shape[-1])",
+                              f"fixup_bias_tensors is at position {names.index('fixup_bias_tensors')}, {pre} at {names.index(pre)}: a bias-less DEPTHWISE_CONV_2D gets a 1-element zero bias (weights still (H,W,C,1)): scale ranges of 16 and 0 bytes for 16 and 8 channels")
+                else:
+                    earlier = any(pre in nm for l2, nm in passes if l2 < ln)
+                    rep.check(earlier, "C08-o", site, f"{pre} runs in an earlier pass than fixup_bias_tensors", f"{pre} not found before the pass at line {ln}")
+    if not found:
+        raise AnalysisError("tflite_optimise_graph: fixup_bias_tensors is in no rewrite list")
